@@ -65,6 +65,22 @@ impl<T> ValuesMatrix<T> {
             .map(|generation| generation.as_ref())
     }
 
+    /// Number of values in every generation, to be passed to unseen_slice_iter later.
+    pub fn generation_lens(&self) -> Vec<usize> {
+        self.values.iter().map(Vec::len).collect()
+    }
+
+    /// For every generation, the values added after generation_lens() returned `seen`; all slices are non-empty.
+    /// A value could be added to any generation (a value from data comes with the generation recorded in the
+    /// data), so it is not enough to look at the generations past the seen ones.
+    pub fn unseen_slice_iter(&self, seen: Vec<usize>) -> impl Iterator<Item = &[T]> {
+        self.values.iter().enumerate().filter_map(move |(idx, generation)| {
+            let seen_len = seen.get(idx).copied().unwrap_or(0).min(generation.len());
+            let unseen = &generation[seen_len..];
+            (!unseen.is_empty()).then_some(unseen)
+        })
+    }
+
     pub fn get_size(&self) -> usize {
         self.size
     }
@@ -121,8 +137,12 @@ impl<T> NewValuesMatrix<T> {
         self.0.slice_iter(skip)
     }
 
-    pub fn generations_count(&self) -> GenerationIdx {
-        self.0.generations_count()
+    pub fn generation_lens(&self) -> Vec<usize> {
+        self.0.generation_lens()
+    }
+
+    pub fn unseen_slice_iter(&self, seen: Vec<usize>) -> impl Iterator<Item = &[T]> {
+        self.0.unseen_slice_iter(seen)
     }
 
     pub fn last_non_empty_generation_idx(&self) -> GenerationIdx {
